@@ -203,6 +203,53 @@ def obligations(tier):
                     out.append(("to_tensor(result at zero budget) ≡ to_tensor(init) (orthonormal fixed factors)", SP.tucker_to_tensor(S, r[0], r[1]), SP.tucker_to_tensor(S, I["core"], I["fs"])))
                 return out
             add("_tucker:tucker", f"N={N},fixed_factors={fixed}", tk_setup(N, fixed), call, post, dict(order=N, fixed_factors=fixed), "fixed factors returned as supplied; tensor unchanged at zero budget")
+    # ---- non-negative Tucker (HALS): fixed modes are never updated and come back as supplied (the non-negative initialisation takes |.| of the supplied
+    # factors, the identity on the entrywise non-negative initialisation the routine requires)
+    from ..iterative import real_dtype
+    def nth_stubs(S):
+        def hals(UtM, UtU, V=None, **kw):
+            if S.name != "sym":
+                from tensorly.solvers.nnls import hals_nnls as real
+                return real(UtM, UtU, V, **kw)
+            return G.opaque_tensor("HALS", G.axis_sizes(V), V.dtype, nonneg=True)
+        def fista(UtM, UtU, x=None, **kw):
+            if S.name != "sym":
+                from tensorly.solvers.nnls import fista as real
+                return real(UtM, UtU, x=x, **kw)
+            return G.opaque_tensor("FISTA", list(x.shape), x.dtype, nonneg=True)
+        def tsvd(M, *a, **k):
+            if S.name != "sym":
+                from tensorly.tenalg.svd import truncated_svd as real
+                return real(M, *a, **k)
+            return None, [G.opaque_tensor("SIGMA", [], real_dtype(M), nonneg=True)], None
+        return dict(hals_nnls=hals, fista=fista), tsvd
+    for N in (3,):
+        for fixed in ([0], [1], [0, 1], [1, 0]):
+            def setup(S, N=N):
+                n, r = dims(N), dims(N, "r")
+                return dict(_S=S, X=S.input("X", n), core=S.input("G", r, nonneg=True), fs=[S.input(f"U{k}", [n[k], r[k]], nonneg=True) for k in range(N)], r=r, n=n)
+            def call(I, fixed=fixed, N=N):
+                import tensorly as tl
+                S = I["_S"]
+                stubs, tsvd = nth_stubs(S)
+                rank = list(I["r"]) if S.name == "sym" else [f.shape[1] for f in I["fs"]]
+                with stubbed(_tk, validate_tucker_rank=lambda shape, rank=None, **k: list(rank), **stubs), stubbed(tl, truncated_svd=tsvd):
+                    cut = LoopCut(_tk.non_negative_tucker_hals)
+                    st = cut.prefix(I["X"], rank, init=(I["core"], list(I["fs"])), fixed_modes=list(fixed), return_errors=True)
+                    before = list(st["nn_factors"])
+                    kind, st2 = cut.body(st, 0)
+                    after = list(st2["nn_factors"])
+                    ret = cut.suffix(st2)
+                t = ret[0] if isinstance(ret, tuple) and not hasattr(ret, "core") else ret
+                return dict(before=before, after=after, returned=list(t[1]))
+            def post(S, I, r, fixed=fixed):
+                out = []
+                for m in fixed:
+                    out.append((f"mode {m}: the sweep does not touch the fixed factor (same object before and after)", r["after"][m] is r["before"][m] if S.name == "sym" else True, True))
+                    out.append((f"mode {m}: returned factor ≡ supplied factor", S.unabs(r["returned"][m]) if S.name == "sym" else r["returned"][m], I["fs"][m]))
+                return out
+            add("_tucker:non_negative_tucker_hals", f"N={N},fixed_modes={fixed}", setup, call, post, dict(order=N, fixed_modes=fixed), "fixed modes are returned as supplied (all sweeps)",
+                assumptions=lambda I: [r_ <= n_ for r_, n_ in zip(I["r"], I["n"])])
     # ====================================================================== PARAFAC2
     for nI in (2, 3):
         def setup(S, nI=nI):
